@@ -59,7 +59,9 @@ template <class T> Outcome expect_int(const std::string& s, __int128& want) {
 		if (std::is_unsigned_v<T> && int_literal(s, true).found) return InvalidOrOutOfRange;
 		return Invalid;
 	}
-	const bool fractional = L.end + 1 < s.size() && s[L.end] == '.' && dig(s[L.end + 1]);
+	// a literal that continues as a floating point number (fraction ".5" or exponent "e5" / "e+5") is a floating literal
+	auto at = [&](size_t k) { return k < s.size() ? s[k] : '\0'; };
+	const bool fractional = (at(L.end) == '.' && dig(at(L.end + 1))) || ((at(L.end) == 'e' || at(L.end) == 'E') && (dig(at(L.end + 1)) || ((at(L.end + 1) == '+' || at(L.end + 1) == '-') && dig(at(L.end + 2)))));
 	__int128 v = 0; bool big = false;
 	for (char c : L.text) { if (c == '-' || big) continue; v = v * 10 + (c - '0'); if (v > (static_cast<__int128>(1) << 100)) big = true; }
 	if (L.neg) v = -v;
@@ -126,6 +128,7 @@ inline const char* selftest() {
 	if (expect_int<uint8_t>("-1", w) != InvalidOrOutOfRange) return "uint8 -1";
 	if (expect_int<int>("12.5", w) != Invalid) return "int 12.5";
 	if (expect_int<int>("12.", w) != Value || w != 12) return "int 12.";
+	if (expect_int<int>("1e5", w) != Invalid || expect_int<int>("1E-5", w) != Invalid || expect_int<int>("1e", w) != Value || expect_int<int>("1e+", w) != Value) return "int exponent";
 	if (expect_int<int>("+5", w) != Invalid) return "int +5";
 	if (expect_int<uint64_t>("18446744073709551615", w) != Value) return "u64 max";
 	if (expect_int<uint64_t>("18446744073709551616", w) != OutOfRange) return "u64 max+1";
